@@ -52,10 +52,14 @@ static void rt_watch_flags(int nstreams, int level)
         WATCH(1, sink.is_stopping);
         WATCH(2, filter.is_stopping);
         WATCH(3, sink.in.is_accepting_writes);
+        // the following were added after the ThreadSanitizer audit (tools/tsan_audit.py) reported races on them
+        WATCH(4, source.is_running);
+        WATCH(5, sink.is_running);
+        WATCH(6, filter.is_running);
+        WATCH(8, source.max_frame_count);
+        WATCH(9, source.enable_filter);
+        WATCH(10, sink.write_delay_ms);
         if (level >= 2) {
-            WATCH(4, source.is_running);
-            WATCH(5, sink.is_running);
-            WATCH(6, filter.is_running);
             WATCH(7, filter.sig_accumulator_reset);
         }
 #undef WATCH
@@ -66,6 +70,16 @@ static void rt_watch_flags(int nstreams, int level)
         vs_name(&v->sink.in.notify_space_available, i ? "video[1].sink.in.space" : "video[0].sink.in.space");
         vs_name(&v->filter.in.lock, i ? "video[1].filter.in.lock" : "video[0].filter.in.lock");
         vs_name(&v->filter.in.notify_space_available, i ? "video[1].filter.in.space" : "video[0].filter.in.space");
+    }
+}
+
+// the HAL's per-device state word is read and written by client and worker threads without a lock
+static void rt_watch_devices(int nstreams)
+{
+    for (int i = 0; i < nstreams; ++i) {
+        struct video_s* v = &rt->video[i];
+        if (v->source.camera) vs_watch(&v->source.camera->state, sizeof v->source.camera->state, i ? "camera[1].state(HAL)" : "camera[0].state(HAL)");
+        if (v->sink.storage) vs_watch(&v->sink.storage->state, sizeof v->sink.storage->state, i ? "storage[1].state(HAL)" : "storage[0].state(HAL)");
     }
 }
 
@@ -88,6 +102,16 @@ static void rt_select(struct AcquireProperties* p, int stream, const char* cam, 
     }
 }
 
+#if defined(__has_feature)
+#if __has_feature(thread_sanitizer)
+#define VERIF_TSAN_AUDIT 1
+#endif
+#endif
+#ifdef VERIF_TSAN_AUDIT
+// TSan audit flavour: TSan owns memset; the 1 GiB rings are avoided by wrapping channel_new at link time instead
+void __real_channel_new(struct channel* self, size_t capacity);
+void __wrap_channel_new(struct channel* self, size_t capacity) { __real_channel_new(self, capacity > (1u << 20) ? 4096 : capacity); }
+#else
 // zero-fills of >= 256 MiB are skipped: acquire_init memsets four fresh 1 GiB mallocs (fresh pages are zero)
 void* memset(void* d, int c, size_t n)
 {
@@ -96,5 +120,6 @@ void* memset(void* d, int c, size_t n)
     __asm__ volatile("rep stosb" : "+D"(d), "+c"(n) : "a"(c) : "memory");
     return r;
 }
+#endif
 
 #endif
